@@ -76,9 +76,13 @@ Definition unroot (path : list N) : list N :=
   | [82] => []
   | _ => path
   end.
+(* os.fsencode (utf-8, surrogateescape): a lone surrogate other than U+DC80..U+DCFF cannot be handed to the kernel *)
+Definition bad_surrogate (c : N) : bool :=
+  (55296 <=? c) && (c <=? 57343) && negb ((56448 <=? c) && (c <=? 56575)).
 (* a trailing slash requires a directory *)
 Definition resolve (w : world) (syspath : list N) : res N :=
   let path := unroot syspath in
+  if existsb bad_surrogate syspath then Err (XInternal IUnicode) else
   i <- resolve_comps w (w_root w) (split_sep path sl) ;;
   if py_endswith path [sl] then
     match node w i with Some (IDir _ _ _) => Ok i | Some _ => Err (XOS ENOTDIR) | None => Err (XOS ENOENT) end
